@@ -231,6 +231,24 @@ def check_ecef(case, ctx):
                       {"got": r2[1], "expected": p})
         return
     ctx.oblige("converted_then_edited_in_place")
+    # ... and with ONE coordinate edited (longitude only, latitude only, height only) after a first conversion
+    for axis, setter in enumerate(("setX", "setY", "setZ")):
+        def one_axis():
+            start = list(p)
+            start[axis] = q[axis]
+            g1 = GeoCoords(*start)
+            g1.toECEFCoords()
+            g1.distanceTo(GeoCoords(*q))
+            getattr(g1, setter)(p[axis])
+            return _xyz(g1.toECEFCoords())
+        st, r3 = guard(one_axis)
+        if st != "ok":
+            ctx.violation("conversion-after-in-place-edit/" + ("does-not-return" if st == "hang" else "raises"), case, r3)
+            return
+        if not max(abs(a - b) for a, b in zip(r3, exp)) <= TOL_ECEF:
+            ctx.violation("GeoCoords.toECEFCoords/after-in-place-edit-of-%s-only/disagrees-with-wgs84-closed-form"
+                          % ("longitude", "latitude", "height")[axis], case, {"got": r3, "expected": exp})
+            return
     d, m = geo_err(g, p)
     ctx.outcome(("ecef", d > 1e-12, m > 1e-6))
 
